@@ -4,7 +4,7 @@ ENGINES = [
     {
         "name": "symx",
         "path": "/verif/symx",
-        "serves_properties": ["C01", "C02", "C03", "C04", "C05", "C06", "C07", "C08", "C09", "C10", "C11", "C12", "C13", "C16", "C17", "C18", "C19"],
+        "serves_properties": ["C01", "C02", "C03", "C04", "C05", "C06", "C07", "C08", "C09", "C10", "C11", "C12", "C13", "C16", "C17", "C18", "C19", "C20"],
         "kind_free_text": "own symbolic executor: geoh5py's real functions run under CPython with the module-global "
         "`np` (and, for file paths, `h5py`) rebound to z3-backed models; re-execution DFS forks on symbolic "
         "branches; obligations are z3 validity queries; counterexamples are replayed on real numpy/h5py",
@@ -291,6 +291,22 @@ CLAIMED["C11"] = _symx(
 )
 CLAIMED["C11"]["design_ref"] = "DESIGN.md section 12.17"
 
+CLAIMED["C20"] = _symx(
+    "C20",
+    "symx path exploration (z3 feasibility only): survey class pair fixed per scenario; linking side, edited parameter and side, copy "
+    "kind and side and a re-open are symbolic choices (one explored path per combination) on the real library and a real file; "
+    "partner resolution, identifiers in the metadata, shared parameters and copies are observed; counterexamples replayed on the real code",
+    "bounded model checking, partial and weak (values are concrete: shared parameters are JSON text in the metadata): for 8 class pairs "
+    "(airborne / moving-loop / large-loop x TEM / FEM, tipper, direct current) x linking side x edit {none, channels, unit, input "
+    "type, channels through both sides} x edited side x copy {none, plain, other workspace, masked} x copied side x re-open (2560 "
+    "paths): both identifiers are recorded on both entities and each resolves its partner (live and after re-opening); a valid "
+    "edit through either side is accepted, visible on both and stored; a copy of one side also copies the partner, the two copies "
+    "point at each other and not at the originals, and the originals stay linked.",
+    "trusted: the symx explorer for enumerating the combinations; everything else is the real library on real h5py. Only the choices are "
+    "symbolic",
+)
+CLAIMED["C20"]["design_ref"] = "DESIGN.md section 12.18"
+
 _XH_NOTE = (
     "trusted: CrossHair 0.0.110 (symbolic execution of CPython code with z3) and its models of builtins; the harness "
     "functions call the real geoh5py kernels directly (no translation); holds only within the value bounds in the evidence"
@@ -354,6 +370,4 @@ CLAIMED["C06"] = {
 _NOT_BUILT = "check not built yet (planned, see DESIGN.md section 5)"
 
 NOT_APPLICABLE = {
-    "C20": "partner linkage is identity bookkeeping in metadata dictionaries persisted as JSON; configurations x "
-    "histories over an object graph, no value-level kernel",
 }
